@@ -2,6 +2,7 @@ import JetVerif.Model.Sexp
 import JetVerif.Model.Path
 import JetVerif.Model.Lex
 import Driver.Read
+import Driver.ParseDump
 import JetVerif.Model.Blocks
 import JetVerif.Model.StructCache
 import JetVerif.Model.Loaders
@@ -312,6 +313,8 @@ def dispatch : Sexp → Sexp
   | .list [.atom "exec", store, entry, exts, esc, globals, vars, data, fuel] =>
     execDispatch store entry exts esc globals vars data fuel
   | .list [.atom "lex", .bytes l, .bytes r, .bytes lc, .bytes rc, .bytes input] => lexCmd l r lc rc input
+  | .list [.atom "parsetree", .bytes name, .bytes l, .bytes r, .bytes lc, .bytes rc, .bytes src, .list lits, .list files] =>
+    ParseDump.parsetreeCmd name l r lc rc src lits files
   | .list [.atom "path-clean", .bytes p] => .bytes (Path.clean p)
   | .list (.atom "path-join" :: rest) =>
       match rest.mapM (fun x => match x with | .bytes b => some b | _ => none) with
